@@ -1306,9 +1306,9 @@ def run(ctx: vlib.Ctx):
         "decided by the harness ((type, repr) classes of date/list/tuple values)",
         "tools/kernels/k9_nested_builder.py: builder attributes abstracted as namespaces, statements before the nested "
         "builder call translated with it",
-        "tools/kernels/k16_field_nullable.py: field types encoded as kernel values (fty grammar), helper predicates "
+        "tools/kernels/k17_nullable.py: field types encoded as kernel values (fty grammar), helper predicates "
         "is_annotated/is_final/is_optional/is_type_var_any as tag tests (is_optional's source text is checked), the "
-        "`while True` unwrapping loop as bounded iteration with fuel 1 + nesting depth; k17_pack_bookkeeping.py: "
+        "`while True` unwrapping loop as bounded iteration with fuel 1 + nesting depth; k18_pack_bookkeeping.py: "
         "_get_field_packer abstracted as its three results (could_be_none = is_field_nullable is checked textually)",
         "tools/kernels/k8_packflags.py: is_code_generation_option_enabled abstracted as a namespace lookup (source "
         "text of the method is checked), pass_encoder=False slice of get_pack_method_flags; K3 abstraction of "
@@ -1332,8 +1332,8 @@ def run(ctx: vlib.Ctx):
     ctx.theorems("props/C08_kernel_K3.vo", ["K3_order", "K3_look"], kernels=["K3"])
     ctx.theorems("props/C08_kernel_K8.vo", ["K8_forward", "K8_use_kwargs"], kernels=["K8"])
     ctx.theorems("props/C08_kernel_K14.vo", ["K14_passdown", "K14_pass_dd"], kernels=["K14"])
-    ctx.theorems("props/C08_kernel_K16.vo", ["K16_nullable"], kernels=["K16"])
-    ctx.theorems("props/C08_kernel_K17.vo", ["K17_bookkeeping", "K17_use_kwargs"], kernels=["K17", "K8"])
+    ctx.theorems("props/C08_kernel_K17.vo", ["K17_nullable"], kernels=["K17"])
+    ctx.theorems("props/C08_kernel_K18.vo", ["K18_bookkeeping", "K18_use_kwargs"], kernels=["K18", "K8"])
     ctx.theorems("props/C08_project.vo", thm)
     ctx.theorems("props/C08_nested.vo", ["C08_nested_partial", "C08_union_flags_refuted", "C08_forwarded_exactly", "C08_no_leak",
                                             "C08_option_free_is_plain", "C08_codec_partial", "C08_codec_obj", "C08_codec_no_leak"])
@@ -1343,7 +1343,7 @@ def run(ctx: vlib.Ctx):
         with vlib.Lock("build"):
             rc, out, _ = vlib.run(["timeout", "600", "coqchk", "-silent", "-o", "-Q", "theories", "Verif", "-Q", "gen", "VerifGen",
                                    "-Q", "props", "VerifProps", "VerifProps.C08_project", "VerifProps.C08_nested",
-                                   "VerifProps.C08_kernel_K3", "VerifProps.C08_kernel_K8", "VerifProps.C08_kernel_K14", "VerifProps.C08_kernel_K16", "VerifProps.C08_kernel_K17"], cwd=vlib.COQ, timeout=640)
+                                   "VerifProps.C08_kernel_K3", "VerifProps.C08_kernel_K8", "VerifProps.C08_kernel_K14", "VerifProps.C08_kernel_K17", "VerifProps.C08_kernel_K18"], cwd=vlib.COQ, timeout=640)
         ok = rc == 0 and "Axioms: <none>" in out
         ctx.obligation("coqchk -o (C08_project, C08_nested, C08_kernel_K3, C08_kernel_K8): no axioms", ok, out[-600:])
         if not ok:
